@@ -122,7 +122,8 @@ PROPS = {
                       'covers every such chunking.',
     },
     'C15': {
-        'families': [('corpus:hs', 0, 0), ('hs:server', 2500, 60000)],
+        'modules': ['C15', 'TieHs'],
+        'families': [('corpus:hs', 0, 0), ('hs:cuts', 1, 1), ('hs:server', 2500, 60000)],
         'rule': 'request heads from a grammar: every subset / order / casing of the required headers, near-miss values, duplicates, extra headers up to '
                 'and past the limit, key shapes, methods, versions, bare-LF line ends, byte mutations, trailing bytes, endless heads; every transport '
                 'segmentation with WouldBlock and partial writes; three callback behaviours',
@@ -138,7 +139,8 @@ PROPS = {
                       'every real handshake from the parsed view with an independent transcription of the property.',
     },
     'C16': {
-        'families': [('corpus:hs', 0, 0), ('hs:client', 2500, 60000)],
+        'modules': ['C16', 'TieHs'],
+        'families': [('corpus:hs', 0, 0), ('hs:cuts', 1, 1), ('hs:client', 2500, 60000)],
         'rule': 'target URIs (userinfo with and without @ in the password, IPv6, ports, no path, wrong scheme, relative), extra headers, subprotocol '
                 'lists, hand-made requests with missing / duplicated required headers; responses with every element missing or altered, accept value '
                 'with one character changed, subprotocol cases, frames following the head at every segmentation',
@@ -153,8 +155,8 @@ PROPS = {
         'level_note': 'Partial for key randomness. D9 (Host cut at the first @) was found here and fixed.',
     },
     'C17': {
-        'modules': ['C17', 'C17Client'],
-        'families': [('corpus:hs', 0, 0), ('hs:server', 2500, 60000), ('hs:client', 1500, 30000)],
+        'modules': ['C17', 'C17Client', 'TieHs'],
+        'families': [('corpus:hs', 0, 0), ('hs:cuts', 1, 1), ('hs:server', 2500, 60000), ('hs:client', 1500, 30000)],
         'rule': 'segmentations of valid and invalid heads into up to 64+ reads, WouldBlock before any read / write / flush, partial write sizes, '
                 '1-byte drips, heads above 64 KiB, 125 headers',
         'assumptions': ['httparse is prefix-stable on the head (Partial on every proper prefix): hypothesis HeadOf of the theorem, checked on every '
@@ -247,7 +249,7 @@ PROPS = {
     },
     'C14': {
         'modules': ['C14', 'C14Global', 'TieWrite', 'TieCodec'],
-        'families': [('ep:slotrace', 1, 1), ('corpus:defects', 0, 0), ('ep:backpressure', 2000, 60000), ('ep:tinybuf', 600, 15000), ('ep:mixed', 500, 10000)],
+        'families': [('ep:slotrace', 1, 1), ('corpus:defects', 0, 0), ('ep:backpressure', 2000, 60000), ('ep:tinybuf', 600, 15000), ('ep:wbound', 1, 1), ('ep:mixed', 500, 10000)],
         'rule': '(write_buffer_size, max_write_buffer_size) pairs incl. 0 and adjacent values, message size sequences, transport refusal '
                 'windows, ping floods while blocked',
         'assumptions': ['max_write_buffer_size holds the largest single frame used (property quantifier)'],
